@@ -317,3 +317,94 @@ func ruleHoleDiscipline(p *Program, r *Report) {
 		})
 	}
 }
+
+// R05d: a dict is assembled from entries without losing duplicates of a key.  A Dict maps a key to one value or to a
+// multipleValues set; enumerating it yields one DictEntryTuple per (key, value) pair.  Code that rebuilds a dict map
+// from such entries with `builder.Put(entry.at, …)` overwrites the earlier values of a key unless it first looks
+// the key up in the builder (as NewDict does).  Every Put into a frozen.MapBuilder[Value, any] whose key comes from
+// the `at` field of a DictEntryTuple must be accompanied, in the same function, by a Get/Has on that builder.
+func ruleDictEntriesKeepDuplicates(p *Program, r *Report) {
+	r.Begin("R05d", "dict entries keep their duplicates: in the module, every Put into a frozen.MapBuilder[rel.Value, any] whose key is the `at` field of a DictEntryTuple sits in a function that also looks keys up in that builder (Get / Has) — the merge into multipleValues that NewDict performs; a bare Put keeps the last value of a key only", 1)
+	defer r.End()
+	isDictBuilder := func(t types.Type) bool {
+		s := strings.ReplaceAll(Deref(t).String(), " ", "")
+		return strings.Contains(s, "frozen.MapBuilder[") && strings.HasSuffix(s, "rel.Value,any]")
+	}
+	n := 0
+	ord := map[string]int{}
+	for _, fn := range p.RepoFns {
+		if fn.Blocks == nil {
+			continue
+		}
+		type putT struct {
+			call *ssa.Call
+			recv ssa.Value
+		}
+		var puts []putT
+		looked := map[ssa.Value]bool{}
+		ForEachInstr(fn, func(ins ssa.Instruction) {
+			c, ok := ins.(*ssa.Call)
+			if !ok {
+				return
+			}
+			g := c.Call.StaticCallee()
+			if g == nil || g.Signature.Recv() == nil || len(c.Call.Args) == 0 {
+				return
+			}
+			if !isDictBuilder(g.Signature.Recv().Type()) {
+				return
+			}
+			switch baseName(g) {
+			case "Put":
+				if len(c.Call.Args) >= 2 && DependsOn(c.Call.Args[1], func(x ssa.Value) bool {
+					switch f := x.(type) {
+					case *ssa.Field:
+						if nt, ok := Deref(f.X.Type()).(*types.Named); ok && nt.Obj().Name() == "DictEntryTuple" {
+							return structOf(f.X.Type()).Field(f.Field).Name() == "at"
+						}
+					case *ssa.FieldAddr:
+						if nt, ok := Deref(f.X.Type()).(*types.Named); ok && nt.Obj().Name() == "DictEntryTuple" {
+							return structOf(f.X.Type()).Field(f.Field).Name() == "at"
+						}
+					}
+					return false
+				}) {
+					puts = append(puts, putT{c, c.Call.Args[0]})
+				}
+			case "Get", "Has":
+				looked[c.Call.Args[0]] = true
+			}
+		})
+		for _, pt := range puts {
+			n++
+			top := fn
+			for top.Parent() != nil {
+				top = top.Parent()
+			}
+			r.Fn(FnName(top))
+			key := "put@" + FnName(top)
+			ord[key]++
+			if ord[key] > 1 {
+				key = fmt.Sprintf("%s~%d", key, ord[key])
+			}
+			ok := looked[pt.recv]
+			if !ok {
+				// the same builder reached through another load of the same cell
+				for v := range looked {
+					if sameValue(v, pt.recv, 0) {
+						ok = true
+					}
+				}
+			}
+			r.Check(ok, key, "existing values of the key are consulted before the Put", fmt.Sprintf("%s rebuilds a dict map with Put(entry.at, …) and never looks the key up in the builder: when a key has several values (a dict made from a set of (@, @value) tuples) only the last one enumerated survives — the result silently loses members", FnName(fn)), pt.call.Pos())
+		}
+	}
+	if n == 0 {
+		r.Undecided("sites", "no Put of a dict entry into a dict map builder found (NewDict is expected)", 0)
+	}
+}
+
+func init() {
+	register("C05", Rule{"R05d", ruleDictEntriesKeepDuplicates})
+	register("C01", Rule{"R05d", ruleDictEntriesKeepDuplicates})
+}
